@@ -670,9 +670,12 @@ class MainTransformer(object):
         target = self._transformer.resolve_aliases(target)
         target = node.type if target is None else target
 
+        # The pointer-ness is that of the annotated value, not of the type
+        # an alias resolves to (typedef int FooInt; FooInt *p)
         return (not isinstance(target, ast.Type) or
                 target not in ast.BASIC_TYPES or
-                target.ctype.endswith('*'))
+                target.ctype.endswith('*') or
+                (node.type.ctype is not None and node.type.ctype.endswith('*')))
 
     def _apply_transfer_annotation(self, parent, node, annotations):
         transfer_annotation = annotations.get(ANN_TRANSFER)
